@@ -114,6 +114,11 @@ def setup(tier):
     import importlib
 
     PARSE_ERROR = importlib.import_module("measured.parsing").ParseError
+    # an application's own additional names (no symbol of their own): part of the registered
+    # names the parser may meet.  This process's world only; other checks run in their own.
+    for unit_name, extra in (("meter", "metre"), ("liter", "litre"), ("gram", "gramme")):
+        if unit_name in M.Unit._by_name and extra not in M.Unit._by_name:
+            M.Unit._by_name[unit_name].alias(name=extra)
     REGS = [
         ("Unit._by_name", M.Unit._by_name),
         ("Unit._by_symbol", M.Unit._by_symbol),
@@ -700,6 +705,17 @@ def _fixed_cases(tier):
                 {"c": L, "parts": ["1 m^", [digit, n], "/s", [sd, n]]},
             ]
         cases += [{"c": L, "parts": [["0", n], " m"]}, {"c": L, "parts": ["m^", ["0", n], "2"]}]
+    # exponent numerals around the interpreter's int-to-str digit limit (4300): int() accepts
+    # them, rendering them (in an error message, say) does not
+    for e in (4299, 4300, 4301):
+        for sym in ("m", "km", "KiB", "kB"):
+            cases += [
+                {"c": L, "parts": [sym, "^", ["9", e]]},
+                {"c": L, "parts": ["KiB ", sym, "^", ["9", e]]},
+                {"c": L, "parts": ["5 ", sym, "^-", ["9", e], "*KiB"]},
+                {"c": L, "parts": [sym, "^", ["9", e], "/km"]},
+                {"c": L, "parts": [sym, ["⁹", e], " kB"]},
+            ]
     for e in (30, 308, 309, 400):
         for sym in ("m", "km", "KiB", "dB", "kB", "MB"):
             # huge powers that cancel within one text (inf - inf in prefix arithmetic)
@@ -718,6 +734,18 @@ def _fixed_cases(tier):
                 {"c": L, "parts": [sym, "^", ["9", e], "/KiB"]},
                 {"c": L, "parts": ["1.5 ", sym, "^", ["9", e], "/km"]},
             ]
+    # numerals written with digit separators or other decorations of numeric literals that some
+    # languages accept (Python's 1_000, 1__0.5 is not even that): a numeral the number type
+    # refuses must come out as ParseError
+    for sep in ("_", "__", ",", "'", "\u2009", "\u00a0"):
+        for num in ("1{s}000", "1{s}0.5", "1{s}.5", "2.5{s}", "1e1{s}", "1{s}0e5", "{s}5", "-1{s}0.25", "5{s}"):
+            for tail in (" m", "m", " kg/s", ""):
+                cases.append({"c": "decorated-numeral", "parts": [num.format(s=sep) + tail]})
+    # spelled-out prefixed units: a prefix *name* glued to a unit name (shipped, or an additional
+    # name without a symbol of its own)
+    for pn in ("kilo", "milli", "centi", "mega", "kibi", "deca"):
+        for un in ("metre", "litre", "gramme", "meter", "second", "byte", "sievert"):
+            cases += [{"c": "spelled-out", "parts": [pn + un]}, {"c": "spelled-out", "parts": ["5 " + pn + un + "/s"]}, {"c": "spelled-out", "parts": [pn + " " + un]}]
     for s in ("1e400", "-1e400", "1e-400", "1e309", "1.7976931348623159e308"):
         cases += [{"c": L, "parts": [s, " m"]}, {"c": L, "parts": [s, "m"]}, {"c": L, "parts": [s]}]
     cases += [
